@@ -705,6 +705,9 @@ func init() {
 			return "hang"
 		}
 		time.Sleep(2 * time.Millisecond)
+		if !parked {
+			g.arm(0) // the search ended before the gate: do not park the follow-up analysis
+		}
 		fresh := build(&gate{})
 		if play != "" {
 			fresh.Move(ctx, play)
